@@ -179,6 +179,15 @@ example : Symm6 (m6 (ctor_C11_C12_C44 (3 : ℚ) 1 2)) ∧ 0 < max6 (m6 (ctor_C11
   · unfold Symm6; decide
   · rw [max6_pos]; exact ⟨0, 0, by decide⟩
 
+/-- the assertions of the `Cijkl` setter are complete: a tensor satisfying all of them exactly has the minor and
+    major symmetries (so every tensor the setter accepts is symmetric up to the `isclose` tolerance). -/
+theorem cijkl_setter_complete (C : T4 K) (h : ∀ pq ∈ cijklSetChecks, at4 C pq.1 = at4 C pq.2) :
+    MinorSymm C ∧ MajorSymm C := cijkl_setter_checks_complete C h
+
+/-- the class invariant is preserved: whatever `transform` returns for a symmetric stored 6x6 is symmetric. -/
+theorem transform_preserves_symmetry (tol : K) (axes : M33 K) (norms : Fin 3 → K) (c z : M6 K) (hc : Symm6 c)
+    (hz : transform tol axes norms c = .ok z) : Symm6 z := transform_symm6 tol axes norms c z hc hz
+
 /-- exactly orthonormal right-handed axes pass `axes_check` unchanged, and `transform` is then the tensor rotation
     `rot`, the relative clean-up and the `Cijkl` setter. -/
 theorem transform_is_rot (tol : K) (axes : M33 K) (norms : Fin 3 → K) (c : M6 K) (hn : ∀ i, norms i = 1)
@@ -253,6 +262,16 @@ theorem generators_proper :
     ProperRot (R2x : M33 K) ∧ ProperRot (R2y : M33 K) ∧ ProperRot (R2z : M33 K) ∧
     (∀ c s : K, c * c + s * s = 1 → ProperRot (rotZ c s)) :=
   ⟨R4z_proper, R4x_proper, R4y_proper, R3d_proper, R2x_proper, R2y_proper, R2z_proper, rotZ_proper⟩
+
+/-- the rotations fixing a tensor form a group: closed under products and (for orthogonal maps) inverses, so the
+    `system_invariant_*` theorems extend from the generators to the whole point group. -/
+theorem invariance_group (C : T4 K) (A B : M33 K) (hA : rot A C = C) (hB : rot B C = C) :
+    rot (mmul A B) C = C ∧ (Orthogonal A → rot (mtr A) C = C) := by
+  constructor
+  · rw [← rot_comp, hB, hA]
+  · intro h
+    have := rot_inv h C
+    rwa [hA] at this
 
 /-- the alternative input combinations of `hexagonal` describe the same tensor (`2 C66 = C11 - C12`). -/
 theorem hexagonal_inputs_agree (C11 C12 C13 C33 C44 : K) :
